@@ -408,9 +408,41 @@ func (vc *VC) lockRelease(li *LockInv, lv *LVal, mode int) {
 	self := SV{L: []string{lv.Ref}}
 	g := vc.evalClause(li.GoName, li.Pkg, []SV{self}, vc.st, vc.entry)
 	// one obligation per top-level conjunct: a failure names the part of the invariant that broke
-	for i, c := range topConjuncts(g) {
+	for i, c := range vc.conjuncts(g, 0) {
 		vc.oblige(fmt.Sprintf("lockinv:%s.%d", li.Type, i+1), li.Tags, c)
 	}
+}
+
+// obligeConj: one obligation per top-level conjunct (smaller queries, and a failure
+// names the conjunct that broke).
+func (vc *VC) obligeConj(name string, tags []string, g string) {
+	cs := vc.conjuncts(g, 0)
+	if len(cs) <= 1 {
+		vc.oblige(name, tags, g)
+		return
+	}
+	for i, c := range cs {
+		vc.oblige(fmt.Sprintf("%s.%d", name, i+1), tags, c)
+	}
+}
+
+// conjuncts splits a goal into conjuncts, looking through named Boolean definitions.
+func (vc *VC) conjuncts(g string, depth int) []string {
+	if t, ok := vc.boolDefs[g]; ok && depth < 8 {
+		return vc.conjuncts(t, depth+1)
+	}
+	var out []string
+	for _, c := range topConjuncts(g) {
+		if c != g {
+			out = append(out, vc.conjuncts(c, depth+1)...)
+		} else {
+			out = append(out, c)
+		}
+	}
+	if len(out) > 24 {
+		return []string{g}
+	}
+	return out
 }
 
 // topConjuncts flattens nested (and ...) at the top of a formula.
